@@ -41,24 +41,38 @@ def match_known_bounded(v, known, pid):
     return None
 
 
+class _Obs(dict):
+    "observable name -> z3 constant of the serialised obligation"
+    def __missing__(self, k):
+        return z3.Int('OBS:' + k)
+
+
+def _frozen_solver(ob, timeout):
+    ob.freeze()
+    fz = getattr(ob, 'frozen', None)
+    if not fz:
+        return None
+    s = z3.Solver()
+    s.set('timeout', timeout)
+    s.from_string(fz['main'])        # assumptions, negated goal and the OBS:<name> == <term> definitions
+    return s
+
+
 def check_known(ob, kf):
     """re-solve the refuted obligation with the finding's characteristic predicate excluded;
     True iff it is then proved (so this refutation is exactly the known finding)"""
     pred = kf.get('predicate')
     if pred is None:
         return True
-    obsv = ob.meta.get('observe') or {}
+    s = _frozen_solver(ob, 10000)
+    if s is None:
+        return False
     try:
-        env = {'o': obsv, 'z3': z3, 'And': z3.And, 'Or': z3.Or, 'Not': z3.Not}
+        env = {'o': _Obs(), 'z3': z3, 'And': z3.And, 'Or': z3.Or, 'Not': z3.Not}
         p = eval(pred, env)         # predicate text comes from the committed known_findings.json
     except Exception:
         return False
-    s = z3.Solver()
-    s.set('timeout', 10000)
-    for a in ob.assumptions:
-        s.add(a)
     s.add(z3.Not(p))
-    s.add(z3.Not(ob.goal))
     return s.check() == z3.unsat
 
 
@@ -75,7 +89,8 @@ def replay(ob, pid):
     for k, v in observ.items():
         if k.endswith('#str'):
             try:
-                strs[k] = STR.rev.get(int(v))
+                tab = ob.meta.get('strs') or {}
+                strs[k] = tab.get(int(v), STR.rev.get(int(v)))
             except Exception:
                 strs[k] = None
     doc = {
@@ -116,32 +131,21 @@ def replay(ob, pid):
 def realisable_model(ob):
     """re-solve a refuted obligation under realisability constraints (pow10 is the real power of
     ten on 0..24, digit-count class attributes are small) so that the model denotes real objects"""
-    if ob.assumptions is None or ob.must != 'valid':
+    if ob.must != 'valid':
         return None
     from .sv import pow10
-    s = z3.Solver()
-    s.set('timeout', 8000)
-    for a in ob.assumptions:
-        s.add(a)
-    s.add(z3.Not(ob.goal))
+    try:
+        s = _frozen_solver(ob, 8000)
+    except Exception:
+        return None
+    if s is None:
+        return None
     for i in range(0, 25):
         s.add(pow10(i) == 10 ** i)
-    obsv = ob.meta.get('observe') or {}
-    names = {}
-    for name, term in obsv.items():
-        try:
-            if z3.is_bool(term):
-                c = z3.Bool('OBS:' + name)
-            elif z3.is_int(term):
-                c = z3.Int('OBS:' + name)
-            else:
-                continue
-            s.add(c == term)
-            names[name] = c
-            if name.rsplit('.', 1)[-1] in ('precision', 'guard', 'display', 'dp') and z3.is_int(term):
-                s.add(term >= 0, term <= 9)
-        except Exception:
-            pass
+    txt = ob.frozen['main']
+    for m in set(re.findall(r'\|?OBS:([A-Za-z_][A-Za-z0-9_.]*\.(?:precision|guard|display|dp))\|?', txt)):
+        c = z3.Int('OBS:' + m)
+        s.add(c >= 0, c <= 9)
     if s.check() != z3.sat:
         return None
     m = s.model()
